@@ -137,6 +137,18 @@ MUTANTS = [
     ("C18-receive-on-block-state", "I3", "receive runs directly on the block state again",
      [(SQ + "ibc/ics20_transfer.rs", "        let ack = match receive_tokens(&mut delta, &msg.packet).await {\n            Ok(()) => {\n                let (state, events) = delta.apply();\n                for event in events {\n                    state.record(event);\n                }\n                TokenTransferAcknowledgement::success()\n            }\n            Err(e) => {\n                drop(delta);\n",
        "        drop(delta);\n        let ack = match receive_tokens(&mut state, &msg.packet).await {\n            Ok(()) => TokenTransferAcknowledgement::success(),\n            Err(e) => {\n", 0)]),
+    ("C15-power-self-compare", "O5", "last-commit cross-check compares the power with itself",
+     [(SQ + "app/vote_extension.rs",
+       "            last_commit_vote.validator.power == extended_commit_info_vote.validator.power,",
+       "            last_commit_vote.validator.power == last_commit_vote.validator.power,", 0)]),
+    ("C15-vote-count-unchecked", "O5", "vote-count equality dropped: zip truncates to the shorter list",
+     [(SQ + "app/vote_extension.rs",
+       "    ensure!(\n        last_commit.votes.len() == extended_commit_info.votes.len(),\n        \"last commit votes length does not match extended commit votes length\"\n    );\n",
+       "", 0)]),
+    ("C13-track-before-add", "MP3", "id tracked before the container add (both arms share one insert)",
+     [(SQ + "mempool/mod.rs",
+       "        let tx_id_to_insert = *ttx_to_insert.id();\n\n        // try insert into pending\n",
+       "        let tx_id_to_insert = *ttx_to_insert.id();\n        // track in contained txs\n        self.contained_txs.insert(tx_id_to_insert);\n\n        // try insert into pending\n", 0)]),
     ("C08-right-child-midpoint", "M4", "re-attached right child taken as the midpoint of the remaining nodes",
      [(MK + "lib.rs",
        "        let root = complete_root(n.checked_sub(i_plus_one).unwrap());\n        i_plus_one.checked_add(root).unwrap()",
